@@ -22,7 +22,10 @@ structure Case where
   hdr : String := ""
   st : Option St := some {}
   nev : Nat := 0
-  num : List (String × Nat) := []     -- injector process → message number
+  num : List (String × Nat) := []     -- injector process → message number (model identity, see `alias`)
+  alias : List (Nat × Nat) := []      -- file number in todo/ → model identity of the injection that currently owns it (newest first): a message
+                                      -- number (inode) is reused once the earlier message with it has left the queue; the model identifies injections
+                                      -- by number, so the k-th reuse of number n is the model's n + k·1000000
   bad : Bool := false
   boot : Bool := true                 -- the start-up re-arm has not happened yet
   budget : List (Nat × Nat) := []     -- completed, unprocessed injections → own steps the daemon has left (C16_bounded)
@@ -204,7 +207,8 @@ def handleT (d : D) (toks : List String) : IO D := do
   | "T" :: "P0" :: _ :: "readdir" :: "todo" :: "->" :: r :: _ =>
     if r == "end" then feed d .dEnd "dEnd"
     else match r.toNat? with
-      | some n =>
+      | some n0 =>
+        let n := ((d.c.alias.find? (·.1 == n0)).map (·.2)).getD n0
         let seeNew := match d.c.st with
           | some s => (match s.d with | .scanning rem => !rem.contains n | _ => false)
           | none => false
@@ -214,7 +218,10 @@ def handleT (d : D) (toks : List String) : IO D := do
   | "T" :: p :: _ :: "link" :: _ :: b :: "->" :: r :: _ =>
     if p == "P0" || p == "P1" || r != "0" || !b.startsWith "todo/" then return d else
     match lastNum b with
-    | some n => feed { d with c := { d.c with num := (p, n) :: d.c.num } } (.iLink n) "iLink"
+    | some n0 =>
+      let uses := (d.c.alias.filter (·.1 == n0)).length
+      let n := n0 + uses * 1000000
+      feed { d with c := { d.c with num := (p, n) :: d.c.num, alias := (n0, n) :: d.c.alias } } (.iLink n) "iLink"
     | none => return d
   | "T" :: p :: _ :: "open_write" :: "lock/trigger" :: "->" :: r :: _ =>
     match (d.c.num.find? (·.1 == p)).map (·.2) with
